@@ -95,6 +95,32 @@ struct ByFunction {
   static std::string s(const std::function<int(int)> &f) { return "function->" + std::to_string(f(20)); }
   static const void *a(const std::function<int(int)> &) { return nullptr; }
 };
+struct ByIntVector {
+  using P = const std::vector<int> &;
+  static std::string s(const std::vector<int> &v) {
+    std::string o = "intvector:";
+    for (int x : v) o += std::to_string(x) + ",";
+    return o;
+  }
+  static const void *a(const std::vector<int> &) { return nullptr; }
+};
+struct ByIntMap {
+  using P = const std::map<std::string, int> &;
+  static std::string s(const std::map<std::string, int> &m) {
+    std::string o = "intmap:";
+    for (auto &kv : m) o += kv.first + "=" + std::to_string(kv.second) + ",";
+    return o;
+  }
+  static const void *a(const std::map<std::string, int> &) { return nullptr; }
+};
+struct Wrapped {
+  int w = 0;
+};
+struct ByWrapped {
+  using P = const Wrapped &;
+  static std::string s(const Wrapped &v) { return "wrapped:" + std::to_string(v.w); }
+  static const void *a(const Wrapped &) { return nullptr; }
+};
 struct ByVector {
   using P = const std::vector<Boxed_Value> &;
   static std::string s(const std::vector<Boxed_Value> &v) { return "vector:" + std::to_string(v.size()); }
@@ -127,7 +153,8 @@ template<typename F1, typename F2> Registrar reg2() {
 static const std::vector<Registrar> &catalogue1() {
   static const std::vector<Registrar> c = {FORMS(int), FORMS(double), FORMS(bool), FORMS(std::string), FORMS(Base), FORMS(Derived), FORMS(Other),
                                            reg1<ByValue<char>>(), reg1<ByValue<unsigned int>>(), reg1<ByValue<long>>(), reg1<ByValue<float>>(),
-                                           reg1<ByCRef<long long>>(), reg1<ByBoxed>(), reg1<ByNumber>(), reg1<ByFunction>(), reg1<ByVector>()};
+                                           reg1<ByCRef<long long>>(), reg1<ByBoxed>(), reg1<ByNumber>(), reg1<ByFunction>(), reg1<ByVector>(),
+                                           reg1<ByIntVector>(), reg1<ByIntMap>(), reg1<ByWrapped>()};
   return c;
 }
 // a small catalogue of two-parameter signatures
@@ -158,6 +185,11 @@ static void add_objects(ChaiScript_Basic &chai, Objects &o) {
   chai.add(user_type<Derived>(), "Derived");
   chai.add(user_type<Other>(), "Other");
   chai.add(base_class<Base, Derived>());
+  // registered conversions: script Vector -> std::vector<int>, script Map -> std::map<string,int>, and a user conversion Other -> Wrapped
+  chai.add(vector_conversion<std::vector<int>>());
+  chai.add(map_conversion<std::map<std::string, int>>());
+  chai.add(user_type<Wrapped>(), "Wrapped");
+  chai.add(type_conversion<Other, Wrapped>([](const Other &o) { return Wrapped{o.o + 1000}; }));
   chai.add(constructor<Base()>(), "Base");
   chai.add(constructor<Derived()>(), "Derived");
   chai.add(constructor<Other()>(), "Other");
@@ -173,7 +205,7 @@ static void add_objects(ChaiScript_Basic &chai, Objects &o) {
   chai.add_global(var(o.sd), "sd");
   chai.add_global_const(const_var(o.scb), "scb");
   chai.add_global(var(&o.ob), "pb");
-  chai.eval("global vi = 5; global vd = 2.5; global vb = true; global vs = \"str\"; global vc = 'c'; global vv = [1, 2];"
+  chai.eval("global vi = 5; global vm = [\"a\": 1, \"b\": 2]; global vmix = [1, \"x\"]; global vd = 2.5; global vb = true; global vs = \"str\"; global vc = 'c'; global vv = [1, 2];"
             "global sf = fun(x) { x + 1 }; class Dyn { def Dyn() { } }; global dy = Dyn(); global un; global vl = 7l; global vu = 8u; global vf = 1.5f;"
             "global sbo = Base(); global sdo = Derived(); global soo = Other();");
 }
@@ -184,7 +216,7 @@ static const std::map<std::string, std::string> &kinds() {
       {"lit_str", "\"s\""}, {"var_str", "vs"}, {"href_str", "hs"}, {"var_char", "vc"}, {"var_long", "vl"}, {"var_uint", "vu"}, {"var_float", "vf"},
       {"base", "ob"}, {"derived", "od"}, {"other", "oo"}, {"const_base", "cob"}, {"const_derived", "cod"}, {"shared_base", "sb"}, {"shared_derived", "sd"},
       {"shared_const_base", "scb"}, {"ptr_base", "pb"}, {"script_base", "sbo"}, {"script_derived", "sdo"}, {"script_other", "soo"},
-      {"script_fn", "sf"}, {"dynobj", "dy"}, {"undef", "un"}, {"vector", "vv"}, {"ret_int", "(vi + 1)"}, {"ret_str", "(vs + \"x\")"}};
+      {"script_fn", "sf"}, {"dynobj", "dy"}, {"undef", "un"}, {"vector", "vv"}, {"map", "vm"}, {"vector_mixed", "vmix"}, {"ret_int", "(vi + 1)"}, {"ret_str", "(vs + \"x\")"}};
   return k;
 }
 
